@@ -31,6 +31,8 @@ STACKS = ['panoc-lbfgs', 'panoc-slbfgs', 'panoc-anderson', 'panoc-noop', 'zerofp
 COUNTS = {}
 
 
+_FD = [0]
+
 def bump(k, n=1):
     COUNTS[k] = COUNTS.get(k, 0) + n
 
@@ -148,7 +150,9 @@ def gen_alm_op(rng, stack=None, force_iso=False, **over):
         op['hessfull'] = '1'
     if stack == 'pantr-newtontr':
         # exact ∇²ψ·v (needs the full second-order oracle) or finite differences
-        fd = rng.choice([0, 1])
+        fd = rng.choice([0, 1]); _FD[0] += 1
+        if _FD[0] <= 2:
+            fd = _FD[0] - 1          # both classes in every run, independent of the seed (required-coverage list)
         op['fd'] = str(fd)
         op['hessfull'] = '1' if fd == 0 else str(rng.choice([0, 1]))
     for k, v in over.items():
